@@ -9,6 +9,7 @@ variant (dump / --print_config / save) and parses the text back with the same pa
             for that text alone
   floats    for every float in `dumped`: the text the yaml / json dumper writes for it alone
 JSON in on stdin ({"cases": [...]}) / JSON out on the last stdout line."""
+import collections
 import contextlib
 import enum
 import io
@@ -96,6 +97,8 @@ def dec(v):
             return ENUMS[v["$e"][0]][v["$e"][1]]
         if "$d" in v:
             return {dec(k): dec(x) for k, x in v["$d"]}
+        if "$od" in v:
+            return collections.OrderedDict((dec(k), dec(x)) for k, x in v["$od"])
         return {k: dec(x) for k, x in v.items()}
     return v
 
@@ -146,6 +149,9 @@ def ty(t):
         return Dict[str, ty(t[1])]
     if k == "dict_int":
         return Dict[int, ty(t[1])]
+    if k == "odict":
+        import typing
+        return typing.OrderedDict[str, ty(t[1])]
     if k == "tuple":
         return Tuple[tuple(ty(x) for x in t[1])]
     if k == "tuplevar":
@@ -197,6 +203,8 @@ def untype(tp):
         return ["set", untype(args[0])]
     if origin is dict:
         return ["dict_int" if args[0] is int else "dict", untype(args[1])]
+    if origin is collections.OrderedDict:
+        return ["odict", untype(args[1])]
     if origin is tuple:
         if len(args) == 2 and args[1] is Ellipsis:
             return ["tuplevar", untype(args[0])]
@@ -297,6 +305,9 @@ def run_step(parser, step, scratch, n):
     elif op == "parse":                   # an earlier parse
         with contextlib.suppress(jsonargparse.ArgumentError, SystemExit):
             parser.parse_object(dec(step["obj"]))
+    elif op == "rejected_parse":          # an earlier command line that is rejected part-way (caller catches the error)
+        with contextlib.suppress(jsonargparse.ArgumentError, SystemExit):
+            parser.parse_args(list(step["argv"]))
     elif op == "set_defaults":            # the declared defaults change
         parser.set_defaults({k: dec(v) for k, v in step["values"]})
     elif op == "default_config":          # a default config file appears
@@ -378,6 +389,11 @@ def run_case(case, scratch):
     finally:
         _core.dump_using_format = orig_duf
     out["text"] = text
+    if kind != "print_config":      # the very object that was handed to dump / save, looked at again
+        try:
+            out["cfg0_after"] = flat_cfg(cfg0, decl)
+        except Exception as e:
+            out["cfg0_after"] = {"$err": err_kind(e)}
     data = captured[-1] if captured else None
     out["dumped"], out["dumped_extra"] = flatten_along(decl, data)
     strs, floats = set(), set()
@@ -438,6 +454,29 @@ def run_case(case, scratch):
     return out
 
 
+def run_forked(case, scratch):
+    r, w = os.pipe()
+    pid = os.fork()
+    if pid == 0:
+        code = 0
+        try:
+            os.close(r)
+            try:
+                out = run_case(case, scratch)
+            except Exception as e:
+                out = {"status": "runner:" + type(e).__name__, "msg": str(e)[:300]}
+            with os.fdopen(w, "w") as f:
+                f.write(json.dumps(out))
+        except BaseException:
+            code = 1
+        os._exit(code)
+    os.close(w)
+    with os.fdopen(r) as f:
+        data = f.read()
+    os.waitpid(pid, 0)
+    return json.loads(data) if data else {"status": "runner:child died"}
+
+
 def main():
     req = json.load(sys.stdin)
     build_dataclasses(req.get("dataclasses", []))
@@ -448,7 +487,9 @@ def main():
         for n, case in enumerate(req["cases"]):
             case = dict(case, n=n)
             try:
-                res.append(run_case(case, scratch))
+                # a case with a history runs in a forked child: what its history leaves behind in the process (context
+                # variables, caches) must show in ITS round trip and must not leak into the cases after it
+                res.append(run_forked(case, scratch) if case.get("history") else run_case(case, scratch))
             except Exception as e:
                 res.append({"status": "runner:" + type(e).__name__, "msg": str(e)[:300]})
     finally:
